@@ -185,7 +185,7 @@ def _rand_elem(rng, shape):
         bs = [rng.choice([1, 2, 3, 4, 5]) for _ in range(nd)]
         tag = 'even' if any(b % 2 == 0 for b in bs) else 'odd-other'
     else:
-        bs = [s + rng.choice([0, 1, 2]) for s in shape]
+        bs = [max(1, s + rng.choice([0, 1, 2])) for s in shape]   # an element with a zero-length axis is rejected (ValueError)
         tag = 'larger'
     n = int(np.prod(bs))
     p = rng.choice([0.3, 0.6])
